@@ -1,4 +1,1827 @@
 import PyxisVerif.Spec.C12
+import PyxisVerif.Lemmas.C02
+import PyxisVerif.Lemmas.C04
+import PyxisVerif.Lemmas.C10
+import PyxisVerif.Lemmas.Layout
 /-! helper lemmas for C12 -/
 namespace PyxisVerif.C12
+open C09
+
+/-! ## definitions used by the `_partial` statements
+
+The model keeps integer literals as unbounded `Int`s; pyxis (and the parser model, `Parser.lean:213`)
+only ever produces literals in `isize` range.  The alignment bound `≤ 2 ^ 63` of `RegOk.aligns` – which
+is what excludes the overflow panic of `util::lcm` – needs that range for the `#[align(N)]` attributes
+of type definitions and extern types. -/
+
+/-- every integer literal of an attribute list is in `isize` range -/
+def AttrsBounded (attrs : List G.Attr) : Prop :=
+  ∀ n args z, G.Attr.fn n args ∈ attrs → G.Expr.int z ∈ args → isizeMin ≤ z ∧ z ≤ isizeMax
+
+/-- the attributes of a type definition carry `isize` literals -/
+def ItemBounded (d : G.Item) : Prop :=
+  match d.inner with
+  | .type td => AttrsBounded td.attrs
+  | .enum _ => True
+
+/-- the attributes of the type definitions and extern types of a module carry `isize` literals -/
+structure ModuleBounded (m : G.Module) : Prop where
+  defs : ∀ d ∈ m.defs, ItemBounded d
+  xtypes : ∀ xt ∈ m.xtypes, AttrsBounded xt.2
+
+/-- the not yet resolved definitions in the registry carry `isize` literals -/
+def Lits (s : State) : Prop := ∀ p i d, s.reg.get p = some i → i.state = .unres d → ItemBounded d
+
+/-- `StateOk` plus: the not yet resolved definitions in the registry carry `isize` literals -/
+structure StateOkB (s : State) : Prop where
+  ok : StateOk s
+  lits : Lits s
+
+/-! ## outcomes that can only panic at sites in `S` -/
+
+/-- `r` is not a panic, or a panic at a site satisfying `S` -/
+def PO (S : String → Prop) {α} (r : Res α) : Prop := ∀ site, r = .panic site → S site
+
+/-- no panic at all -/
+abbrev NoSite : String → Prop := fun _ => False
+/-- only the modelled allocation limit -/
+abbrev Alloc : String → Prop := fun site => site = allocSite
+
+theorem PO.mono {S T : String → Prop} {α} {r : Res α} (h : PO S r) (hst : ∀ x, S x → T x) : PO T r :=
+  fun site hs => hst site (h site hs)
+
+theorem PO.alloc {α} {r : Res α} (h : PO NoSite r) : PO Alloc r := h.mono (fun _ hf => hf.elim)
+
+theorem PO.ok {S α} (a : α) : PO S (Res.ok a) := fun _ h => by cases h
+theorem PO.err {S α} (m : String) : PO S (Res.err m : Res α) := fun _ h => by cases h
+theorem PO.defer {S α} : PO S (Res.defer : Res α) := fun _ h => by cases h
+
+theorem PO.cast {S α β} {e : Res α} (h : PO S e) (hne : ∀ a, e = .ok a → False) : PO S (e.cast : Res β) := by
+  cases e with
+  | ok a => exact (hne a rfl).elim
+  | defer => exact PO.defer
+  | err m => exact PO.err m
+  | panic s => intro site hs; simp only [Res.cast, Res.panic.injEq] at hs; exact h site (by rw [hs])
+
+theorem PO.foldlM {S α β} (f : β → α → Res β) (l : List α) (b : β) (hf : ∀ b a, a ∈ l → PO S (f b a)) :
+    PO S (Res.foldlM f b l) := by
+  induction l generalizing b with
+  | nil => exact PO.ok b
+  | cons a as ih =>
+    unfold Res.foldlM
+    have h1 := hf b a (by simp)
+    split
+    · exact ih _ (fun b a ha => hf b a (by simp [ha]))
+    · exact PO.defer
+    · exact PO.err _
+    · next s hs => intro site h; cases h; exact h1 _ hs
+
+/-- fold with an invariant on the accumulator -/
+theorem PO.foldlM_inv {S α β} (I : β → Prop) (f : β → α → Res β) (l : List α) (b : β) (h0 : I b)
+    (hf : ∀ b a, a ∈ l → I b → PO S (f b a) ∧ ∀ b', f b a = .ok b' → I b') :
+    PO S (Res.foldlM f b l) ∧ ∀ b', Res.foldlM f b l = .ok b' → I b' := by
+  induction l generalizing b with
+  | nil => exact ⟨PO.ok b, fun b' h => by cases h; exact h0⟩
+  | cons a as ih =>
+    unfold Res.foldlM
+    obtain ⟨h1, h2⟩ := hf b a (by simp) h0
+    split
+    · next b1 hb1 => exact ih b1 (h2 b1 hb1) (fun b a ha => hf b a (by simp [ha]))
+    · exact ⟨PO.defer, fun _ h => by cases h⟩
+    · exact ⟨PO.err _, fun _ h => by cases h⟩
+    · next s hs => exact ⟨fun site h => by cases h; exact h1 _ hs, fun _ h => by cases h⟩
+
+theorem PO.mapM' {S α β} (f : α → Res β) (l : List α) (hf : ∀ a ∈ l, PO S (f a)) : PO S (Res.mapM' f l) := by
+  induction l with
+  | nil => exact PO.ok _
+  | cons a as ih =>
+    unfold Res.mapM'
+    have h1 := hf a (by simp)
+    have h2 := ih (fun a ha => hf a (by simp [ha]))
+    split
+    · split
+      · exact PO.ok _
+      · exact PO.defer
+      · exact PO.err _
+      · next s hs => intro site h; cases h; exact h2 _ hs
+    · exact PO.defer
+    · exact PO.err _
+    · next s hs => intro site h; cases h; exact h1 _ hs
+
+/-- closes `h : e = .panic site` when every branch of `e` is visibly not a panic -/
+macro "no_panic_at " h:ident : tactic =>
+  `(tactic| repeat' (first | (cases $h:ident; done) | (split at $h:ident)))
+
+/-! ## the modelled allocation limit -/
+
+theorem makePadding_panic (out : List SFunc) (target : Nat) (site : String)
+    (h : makePadding out target = .panic site) : site = allocSite ∧ target > paddingLoopBound := by
+  unfold makePadding at h
+  simp only [] at h
+  split at h
+  · next hgt => cases h; exact ⟨rfl, by omega⟩
+  · cases h
+
+theorem makePadding_po (out : List SFunc) (target : Nat) : PO Alloc (makePadding out target) :=
+  fun site h => (makePadding_panic out target site h).1
+
+/-! ## attribute loops -/
+
+theorem fnAttrStep_np (isV : Bool) (st : FnAttrSt) (a : G.Attr) : PO NoSite (fnAttrStep isV st a) := by
+  intro site h; unfold fnAttrStep at h; no_panic_at h
+
+theorem indexAttr_np (attrs : List G.Attr) : PO NoSite (indexAttr attrs) := by
+  unfold indexAttr
+  apply PO.foldlM
+  intro b a _ site h; no_panic_at h
+
+theorem typeAttrStep_np (st : TypeAttrs) (a : G.Attr) : PO NoSite (typeAttrStep st a) := by
+  intro site h; unfold typeAttrStep at h; no_panic_at h
+
+theorem fieldAttrStep_np (st : FieldAttrs) (a : G.Attr) : PO NoSite (fieldAttrStep st a) := by
+  intro site h; unfold fieldAttrStep at h; no_panic_at h
+
+theorem vftableSizeAttr_np (attrs : List G.Attr) : PO NoSite (vftableSizeAttr attrs) := by
+  unfold vftableSizeAttr
+  apply PO.foldlM
+  intro b a _ site h; no_panic_at h
+
+theorem enumAttrStep_np (st : EnumAttrs) (a : G.Attr) : PO NoSite (enumAttrStep st a) := by
+  intro site h; unfold enumAttrStep at h; no_panic_at h
+
+theorem xvalAddress_np (attrs : List G.Attr) : PO NoSite (xvalAddress attrs) := by
+  unfold xvalAddress
+  apply PO.foldlM
+  intro b a _ site h; no_panic_at h
+
+theorem xtypeAttrStep_np (st : XTypeAttrs) (a : G.Attr) : PO NoSite (xtypeAttrStep st a) := by
+  intro site h; unfold xtypeAttrStep at h; no_panic_at h
+
+theorem addItem_np (s : State) (i : ItemDef) : PO NoSite (s.addItem i) := by
+  intro site h; unfold State.addItem at h; no_panic_at h
+
+/-! ## lookups and types -/
+
+theorem paddingType_np (r : Registry) (n : Nat) (h : r.contains ["u8"] = true) : PO NoSite (r.paddingType n) := by
+  intro site hs
+  unfold Registry.paddingType Registry.resolveString at hs
+  simp [h] at hs
+
+theorem resolveTy_np (r : Registry) (scope : List Path) (t : G.Ty) (h : r.contains ["u8"] = true) :
+    PO NoSite (r.resolveTy scope t) := by
+  induction t with
+  | cptr t ih => intro site hs; unfold Registry.resolveTy at hs; split at hs; · cases hs
+                 · exact ih site hs
+  | mptr t ih => intro site hs; unfold Registry.resolveTy at hs; split at hs; · cases hs
+                 · exact ih site hs
+  | arr t n ih => intro site hs; unfold Registry.resolveTy at hs; split at hs; · cases hs
+                  · exact ih site hs
+  | ident s => intro site hs; unfold Registry.resolveTy at hs; split at hs <;> cases hs
+  | unk n => exact paddingType_np r n h
+
+theorem dsize_np (r : Registry) (t : DTy) : PO NoSite (t.size r) := by
+  induction t with
+  | raw p => intro site h; simp [DTy.size] at h
+  | cptr t _ => intro site h; simp [DTy.size] at h
+  | mptr t _ => intro site h; simp [DTy.size] at h
+  | arr t n ih =>
+    intro site h
+    unfold DTy.size at h
+    split at h
+    · split at h <;> cases h
+    · exact ih site h
+
+theorem rsize_np (r : Registry) (t : RTy) : PO NoSite (t.size r) := by
+  cases t with
+  | data t => exact dsize_np r t
+  | fn cc args ret => intro site h; simp [RTy.size] at h
+
+/-- an alignment the layout arithmetic cannot overflow on -/
+def GoodAl (a : Nat) : Prop := Layout.isPow2 a = true ∧ a ≤ 2 ^ 63
+
+theorem goodAl_one : GoodAl 1 := ⟨by decide, by decide⟩
+
+theorem goodAl_ps {r : Registry} (hr : RegOk r) : GoodAl r.ps :=
+  ⟨hr.ps_pow2, Nat.le_trans hr.ps_small (by decide)⟩
+
+theorem GoodAl.pos {a : Nat} (h : GoodAl a) : 1 ≤ a := C01.isPow2_pos a h.1
+
+theorem dalign_good {r : Registry} (hr : RegOk r) (t : DTy) (a : Nat) (h : t.align r = some a) : GoodAl a := by
+  induction t with
+  | raw p =>
+    simp only [DTy.align] at h
+    cases hg : r.get p with
+    | none => simp [hg] at h
+    | some i =>
+      simp only [hg, Option.bind_some] at h
+      cases hs : i.state with
+      | unres d => simp [ItemDef.resolved?, hs] at h
+      | res res =>
+        simp only [ItemDef.resolved?, hs, Option.map_some, Option.some.injEq] at h
+        subst h
+        exact hr.aligns p i res hg hs
+  | cptr t _ => simp only [DTy.align, Option.some.injEq] at h; subst h; exact goodAl_ps hr
+  | mptr t _ => simp only [DTy.align, Option.some.injEq] at h; subst h; exact goodAl_ps hr
+  | arr t n ih => exact ih h
+
+theorem dsize_align (r : Registry) (t : DTy) (s : Nat) (h : t.size r = .ok (some s)) : ∃ a, t.align r = some a := by
+  induction t generalizing s with
+  | raw p =>
+    simp only [DTy.size, Res.ok.injEq] at h
+    simp only [DTy.align]
+    cases hg : r.get p with
+    | none => simp [hg] at h
+    | some i =>
+      simp only [hg, Option.bind_some] at h ⊢
+      cases hs : i.resolved? with
+      | none => simp [hs] at h
+      | some res => exact ⟨res.align, rfl⟩
+  | cptr t _ => exact ⟨r.ps, rfl⟩
+  | mptr t _ => exact ⟨r.ps, rfl⟩
+  | arr t n ih =>
+    unfold DTy.size at h
+    simp only [DTy.align]
+    split at h
+    · next s' hs' => exact ih s' hs'
+    · next hne => exact absurd h (hne s)
+
+/-- a region type whose size is known has a good alignment -/
+theorem rty_good {r : Registry} (hr : RegOk r) (t : RTy) (s : Nat) (h : t.size r = .ok (some s)) :
+    ∃ a, t.align r = some a ∧ GoodAl a := by
+  cases t with
+  | data t =>
+    obtain ⟨a, ha⟩ := dsize_align r t s h
+    exact ⟨a, ha, dalign_good hr t a ha⟩
+  | fn cc args ret => exact ⟨r.ps, rfl, goodAl_ps hr⟩
+
+/-! ## the placement loop -/
+
+open Layout in
+/-- a placed region with a good alignment -/
+def GoodPl {β} (p : Placed β) : Prop := ∃ a, p.align = some a ∧ GoodAl a
+
+open Layout in
+/-- invariant of the `Regions` accumulator -/
+def J {β} (st : St β) : Prop := (∀ p ∈ st.1, GoodPl p) ∧ sumSizes st.1 = st.2 ∧ st.2 ≤ usizeMax
+
+open Layout in
+def FieldGood {β} (f : PField β) : Prop := ∀ s, f.size = .ok (some s) → ∃ a, f.align = some a ∧ GoodAl a
+
+open Layout in
+theorem push_np {β} (st : St β) (sz : Res (Option Nat)) (al : Option Nat) (arr : Bool) (src : Option β)
+    (h : PO NoSite sz) : PO NoSite (push st sz al arr src) := by
+  intro site hs
+  unfold push at hs
+  split at hs
+  · cases hs
+  · split at hs
+    · cases hs
+    · split at hs <;> cases hs
+  · cases hs
+  · cases hs
+  · cases hs; exact h _ rfl
+
+open Layout in
+theorem pushField_np {β} (st : St β) (f : PField β) (h : PO NoSite f.size) : PO NoSite (pushField st f) :=
+  push_np _ _ _ _ _ h
+
+open Layout in
+theorem pushPad_np {β} (st : St β) (n : Nat) : PO NoSite (pushPad st n) :=
+  push_np _ _ _ _ _ (PO.ok _)
+
+open Layout in
+theorem J_nil {β} : J (([], 0) : St β) := by
+  refine ⟨fun p hp => ?_, rfl, Nat.zero_le _⟩
+  cases hp
+
+open Layout in
+theorem push_J {β} (st st' : St β) (sz : Res (Option Nat)) (al : Option Nat) (arr : Bool) (src : Option β)
+    (hj : J st) (hal : ∀ s, sz = .ok (some s) → ∃ a, al = some a ∧ GoodAl a)
+    (h : push st sz al arr src = .ok st') : J st' := by
+  unfold push at h
+  split at h
+  · cases h
+  · next s =>
+    split at h
+    · cases h; exact hj
+    · split at h
+      · next hle =>
+        cases h
+        obtain ⟨j1, j2, j3⟩ := hj
+        refine ⟨?_, ?_, hle⟩
+        · intro p hp
+          rcases List.mem_append.mp hp with hp | hp
+          · exact j1 p hp
+          · simp only [List.mem_singleton] at hp
+            subst hp
+            exact hal s rfl
+        · simp [C01.sumSizes_append, C01.sumSizes_cons, C01.sumSizes_nil, j2]
+      · cases h
+  · cases h
+  · cases h
+  · cases h
+
+open Layout in
+theorem place_np {β} (fs : List (PField β)) (st : St β) (h : ∀ f ∈ fs, PO NoSite f.size) :
+    PO NoSite (place st fs) := by
+  induction fs generalizing st with
+  | nil => exact PO.ok _
+  | cons f fs ih =>
+    have hf := h f (by simp)
+    have ih' := fun st => ih st (fun g hg => h g (by simp [hg]))
+    intro site hs
+    unfold place at hs
+    split at hs
+    · split at hs
+      · cases hs
+      · split at hs
+        · split at hs
+          · exact ih' _ site hs
+          · cases hs
+          · cases hs
+          · next s1 h1 => exact (pushField_np _ _ hf _ h1).elim
+        · cases hs
+        · cases hs
+        · next s1 h1 => exact (pushPad_np _ _ _ h1).elim
+    · split at hs
+      · exact ih' _ site hs
+      · cases hs
+      · cases hs
+      · next s1 h1 => exact (pushField_np _ _ hf _ h1).elim
+
+open Layout in
+theorem place_J {β} (fs : List (PField β)) (st st' : St β) (hj : J st) (hf : ∀ f ∈ fs, FieldGood f)
+    (h : place st fs = .ok st') : J st' := by
+  induction fs generalizing st with
+  | nil => simp only [place] at h; cases h; exact hj
+  | cons f fs ih =>
+    have hfs : ∀ g ∈ fs, FieldGood g := fun g hg => hf g (by simp [hg])
+    rcases C01.place_cons_inv st st' f fs h with ⟨_, st2, h2, h3⟩ | ⟨a, _, _, st1, st2, h1, h2, h3⟩
+    · exact ih st2 (push_J _ _ _ _ _ _ hj (hf f (by simp)) h2) hfs h3
+    · have j1 : J st1 := push_J _ _ _ _ _ _ hj (fun _ _ => ⟨1, rfl, goodAl_one⟩) h1
+      exact ih st2 (push_J _ _ _ _ _ _ j1 (hf f (by simp)) h2) hfs h3
+
+open Layout in
+theorem padTail_np {β} (st : St β) (t : Option Nat) : PO NoSite (padTail st t) := by
+  intro site hs
+  unfold padTail at hs
+  split at hs
+  · split at hs
+    · exact pushPad_np _ _ _ hs
+    · cases hs
+  · cases hs
+
+open Layout in
+theorem padTail_J {β} (st st' : St β) (t : Option Nat) (hj : J st) (h : padTail st t = .ok st') : J st' := by
+  unfold padTail at h
+  split at h
+  · split at h
+    · exact push_J _ _ _ _ _ _ hj (fun _ _ => ⟨1, rfl, goodAl_one⟩) h
+    · cases h; exact hj
+  · cases h; exact hj
+
+open Layout in
+theorem resolve_np {β} (vptr : Option (PField β)) (fields : List (PField β)) (target : Option Nat)
+    (hv : ∀ v, vptr = some v → PO NoSite v.size) (hf : ∀ f ∈ fields, PO NoSite f.size) :
+    PO NoSite (resolve vptr fields target) := by
+  intro site hs
+  unfold resolve at hs
+  split at hs
+  · split at hs
+    · split at hs
+      · simp only [] at hs
+        split at hs
+        · split at hs <;> cases hs
+        · cases hs
+      · cases hs
+      · cases hs
+      · next s1 h1 => exact (padTail_np _ _ _ h1).elim
+    · cases hs
+    · cases hs
+    · next s1 h1 => exact (place_np _ _ hf _ h1).elim
+  · cases hs
+  · cases hs
+  · next s1 h1 =>
+    cases vptr with
+    | none => cases h1
+    | some v => exact (pushField_np _ _ (hv v rfl) _ h1).elim
+
+open Layout in
+theorem resolve_good {β} (vptr : Option (PField β)) (fields : List (PField β)) (target : Option Nat)
+    (placed : List (Placed β)) (size : Nat) (h : resolve vptr fields target = .ok (placed, size))
+    (hv : ∀ v, vptr = some v → FieldGood v) (hf : ∀ f ∈ fields, FieldGood f) :
+    (∀ p ∈ placed, GoodPl p) ∧ sumSizes placed ≤ usizeMax := by
+  obtain ⟨st0, st1, st2, h0, h1, h2, rfl, _, _⟩ := C01.resolve_inv vptr fields target placed size h
+  have j0 : J st0 := by
+    cases vptr with
+    | none => cases h0; exact J_nil
+    | some v => exact push_J ([], 0) st0 _ _ _ _ J_nil (hv v rfl) h0
+  obtain ⟨k1, k2, k3⟩ := padTail_J st1 st2 target (place_J fields st0 st1 j0 hf h1) h2
+  exact ⟨k1, by rw [k2]; exact k3⟩
+
+/-! ## the alignment block -/
+
+theorem goodAl_dvd {a b : Nat} (ha : GoodAl a) (hb : GoodAl b) : a ∣ b ∨ b ∣ a := by
+  obtain ⟨i, rfl⟩ := (Layout.isPow2_iff a).mp ha.1
+  obtain ⟨j, rfl⟩ := (Layout.isPow2_iff b).mp hb.1
+  rcases Nat.le_total i j with h | h
+  · exact Or.inl (Nat.pow_dvd_pow 2 h)
+  · exact Or.inr (Nat.pow_dvd_pow 2 h)
+
+theorem lcmStep_good (acc x : Nat) (ha : GoodAl acc) (hx : GoodAl x) :
+    ∃ m, Layout.lcmStep acc x = .ok m ∧ GoodAl m := by
+  have hap := ha.pos
+  have hxp := hx.pos
+  have hu : (2 : Nat) ^ 63 ≤ usizeMax := by decide
+  rcases goodAl_dvd ha hx with hd | hd
+  · have hg : Nat.gcd acc x = acc := Nat.gcd_eq_left hd
+    have hdiv : acc / acc = 1 := Nat.div_self hap
+    refine ⟨x, ?_, hx⟩
+    unfold Layout.lcmStep
+    rw [hg, hdiv, Nat.one_mul]
+    have := hx.2
+    rw [if_neg (by omega), if_neg (by omega)]
+  · have hg : Nat.gcd acc x = x := Nat.gcd_eq_right hd
+    refine ⟨acc, ?_, ha⟩
+    unfold Layout.lcmStep
+    rw [hg, Nat.div_mul_cancel hd]
+    have := ha.2
+    rw [if_neg (by omega), if_neg (by omega)]
+
+open Layout in
+theorem lcmAll_good {β} (rs : List (Placed β)) (h : ∀ p ∈ rs, GoodPl p) : PO NoSite (lcmAll rs) := by
+  unfold lcmAll
+  refine (PO.foldlM_inv GoodAl _ rs 1 goodAl_one ?_).1
+  intro acc r hr hacc
+  obtain ⟨a, ha, hga⟩ := h r hr
+  simp only [ha]
+  obtain ⟨m, hm, hgm⟩ := lcmStep_good acc a hacc hga
+  rw [hm]
+  exact ⟨PO.ok _, fun b' hb => by cases hb; exact hgm⟩
+
+open Layout in
+theorem fieldsAligned_np {β} (rs : List (Placed β)) (off : Nat) (h : ∀ p ∈ rs, GoodPl p)
+    (hsum : off + sumSizes rs ≤ usizeMax) : PO NoSite (fieldsAligned off rs) := by
+  induction rs generalizing off with
+  | nil => exact PO.ok _
+  | cons r rs ih =>
+    obtain ⟨a, ha, hga⟩ := h r (by simp)
+    have hap := hga.pos
+    rw [C01.sumSizes_cons] at hsum
+    intro site hs
+    unfold fieldsAligned at hs
+    simp only [ha] at hs
+    split at hs
+    · omega
+    · split at hs
+      · cases hs
+      · split at hs
+        · omega
+        · exact ih (off + r.size) (fun p hp => h p (by simp [hp])) (by omega) site hs
+
+open Layout in
+theorem alignCheck_np {β} (ps : Nat) (packed : Bool) (al : Option Nat) (rs : List (Placed β)) (size : Nat)
+    (h : ∀ p ∈ rs, GoodPl p) (hsum : sumSizes rs ≤ usizeMax) : PO NoSite (alignCheck ps packed al rs size) := by
+  intro site hs
+  unfold alignCheck at hs
+  split at hs
+  · split at hs <;> cases hs
+  · simp only [] at hs
+    split at hs
+    · cases hs
+    · next hp =>
+      split at hs
+      · split at hs
+        · cases hs
+        · split at hs
+          · split at hs
+            · next h0 =>
+              have := C01.isPow2_pos _ (by simpa using hp)
+              omega
+            · split at hs <;> cases hs
+          · cases hs
+          · cases hs
+          · next s1 h1 => exact (fieldsAligned_np rs 0 h (by omega) _ h1).elim
+      · cases hs
+      · cases hs
+      · next s1 h1 => exact (lcmAll_good rs h _ h1).elim
+
+open Layout in
+theorem alignCheck_good {β} (ps : Nat) (packed : Bool) (al : Option Nat) (rs : List (Placed β)) (size a : Nat)
+    (hps : GoodAl ps) (hal : ∀ x, al = some x → x ≤ 2 ^ 63) (h : ∀ p ∈ rs, GoodPl p)
+    (hok : alignCheck ps packed al rs size = .ok a) : GoodAl a := by
+  cases packed with
+  | true =>
+    rw [(C01.alignCheck_packed_inv ps al rs size a hok).1]
+    exact goodAl_one
+  | false =>
+    obtain ⟨h1, h2, -⟩ := C01.alignCheck_unpacked_inv ps al rs size a hok
+    refine ⟨h2, ?_⟩
+    clear hok
+    rw [h1]
+    unfold requestedAlign
+    split
+    · next x => exact hal x rfl
+    · split
+      · next r0 =>
+        split
+        · next x hx =>
+          obtain ⟨y, hy, hgy⟩ := h r0 (by simp)
+          rw [hx] at hy; cases hy
+          exact hgy.2
+        · exact hps.2
+      · exact hps.2
+
+/-! ## functions and vftables -/
+
+theorem PO.of_panic {S α β} {x : Res α} {s : String} (h : PO S x) (hs : x = .panic s) : PO S (Res.panic s : Res β) := by
+  intro site h'; cases h'; exact h _ hs
+
+macro "po_triv" : tactic => `(tactic| first | exact PO.ok _ | exact PO.err _ | exact PO.defer)
+
+theorem buildArg_np (reg : Registry) (scope : List Path) (a : G.Arg) (h : reg.contains ["u8"] = true) :
+    PO NoSite (buildArg reg scope a) := by
+  unfold buildArg
+  split
+  · po_triv
+  · po_triv
+  · split
+    · po_triv
+    · po_triv
+    · po_triv
+    · next s hs => exact (resolveTy_np reg scope _ h).of_panic hs
+
+theorem buildFunction_np (reg : Registry) (scope : List Path) (isV : Bool) (f : G.Func)
+    (h : reg.contains ["u8"] = true) : PO NoSite (buildFunction reg scope isV f) := by
+  unfold buildFunction
+  split
+  · po_triv
+  · split
+    · split
+      · po_triv
+      · split
+        · simp only []
+          split
+          · po_triv
+          · next hne =>
+            refine PO.cast ?_ hne
+            split
+            · po_triv
+            · split
+              · po_triv
+              · po_triv
+              · po_triv
+              · next s hs => exact (resolveTy_np reg scope _ h).of_panic hs
+        · next hne => exact PO.cast (PO.mapM' _ _ (fun a _ => buildArg_np reg scope a h)) hne
+    · next hne => exact PO.cast (PO.foldlM _ _ _ (fun b a _ => fnAttrStep_np isV b a)) hne
+
+theorem slotStep_po (reg : Registry) (scope : List Path) (out : List SFunc) (f : G.Func)
+    (h : reg.contains ["u8"] = true) : PO Alloc (C04.slotStep reg scope out f) := by
+  unfold C04.slotStep
+  split
+  · split
+    · split
+      · po_triv
+      · next hne => exact PO.cast (buildFunction_np reg scope true f h).alloc hne
+    · split
+      · split
+        · po_triv
+        · exact makePadding_po _ _
+      · po_triv
+  · next hne => exact PO.cast (indexAttr_np _).alloc hne
+
+theorem convertVfuncs_po (reg : Registry) (scope : List Path) (size : Option Nat) (fns : List G.Func)
+    (h : reg.contains ["u8"] = true) : PO Alloc (convertVfuncs reg scope size fns) := by
+  rw [C04.convertVfuncs_eq]
+  split
+  · split
+    · split
+      · po_triv
+      · exact makePadding_po _ _
+    · po_triv
+  · exact PO.foldlM _ _ _ (fun out f _ => slotStep_po reg scope out f h)
+
+theorem stmtStep_po (reg : Registry) (scope : List Path) (acc : StmtAcc) (ist : Nat × G.Stmt)
+    (h : reg.contains ["u8"] = true) : PO Alloc (stmtStep reg scope acc ist) := by
+  obtain ⟨idx, st⟩ := ist
+  unfold stmtStep
+  simp only []
+  split
+  · split
+    · po_triv
+    · split
+      · split
+        · po_triv
+        · split
+          · split <;> split <;> po_triv
+          · next hne => exact PO.cast (resolveTy_np reg scope _ h).alloc hne
+      · next hne => exact PO.cast (PO.foldlM _ _ _ (fun b a _ => fieldAttrStep_np b a)).alloc hne
+  · split
+    · po_triv
+    · split
+      · po_triv
+      · split
+        · split
+          · po_triv
+          · next hne => exact PO.cast (convertVfuncs_po reg scope _ _ h) hne
+        · next hne => exact PO.cast (vftableSizeAttr_np _).alloc hne
+
+/-- base regions collected by the statement loop are named -/
+def PendOk (acc : StmtAcc) : Prop := ∀ p ∈ acc.pending, p.2.isBase = true → p.2.name.isSome = true
+
+theorem stmtStep_pend (reg : Registry) (scope : List Path) (acc acc' : StmtAcc) (ist : Nat × G.Stmt)
+    (ha : PendOk acc) (h : stmtStep reg scope acc ist = .ok acc') : PendOk acc' := by
+  obtain ⟨idx, st⟩ := ist
+  unfold stmtStep at h
+  simp only [] at h
+  split at h
+  · rename_i vis name ty hf
+    split at h
+    · cases h
+    · split at h
+      · rename_i fa _
+        split at h
+        · cases h
+        · rename_i hbase
+          split at h
+          · split at h
+            · split at h
+              · cases h
+              · cases h
+                intro p hp hb
+                rcases List.mem_append.mp hp with hp | hp
+                · exact ha p hp hb
+                · simp only [List.mem_singleton] at hp
+                  subst hp
+                  rfl
+            · rename_i hname
+              split at h
+              · cases h
+              · cases h
+                intro p hp hb
+                rcases List.mem_append.mp hp with hp | hp
+                · exact ha p hp hb
+                · simp only [List.mem_singleton] at hp
+                  subst hp
+                  simp only at hb
+                  simp only [hb, Bool.true_and, beq_iff_eq] at hbase
+                  simp only [bne_iff_ne, ne_eq, Decidable.not_not] at hname
+                  exact absurd hname hbase
+          · exact absurd h (C01.cast_ne_ok _ _)
+      · exact absurd h (C01.cast_ne_ok _ _)
+  · split at h
+    · cases h
+    · split at h
+      · cases h
+      · split at h
+        · split at h
+          · cases h; exact ha
+          · exact absurd h (C01.cast_ne_ok _ _)
+        · exact absurd h (C01.cast_ne_ok _ _)
+
+theorem regionNameAndTypeDef_np (reg : Registry) (r : Region) (h : r.name.isSome = true) :
+    PO NoSite (regionNameAndTypeDef reg r) := by
+  unfold regionNameAndTypeDef
+  split
+  · next hn => rw [hn] at h; cases h
+  · split
+    · split
+      · po_triv
+      · split
+        · po_triv
+        · split <;> po_triv
+    · po_triv
+
+theorem baseVftable_np (reg : Registry) (fb : Option Region) (h : ∀ b, fb = some b → b.name.isSome = true) :
+    PO NoSite (baseVftable reg fb) := by
+  unfold baseVftable
+  split
+  · po_triv
+  · next b =>
+    split
+    · po_triv
+    · po_triv
+    · next h1 h2 =>
+      refine PO.cast (regionNameAndTypeDef_np reg b (h b rfl)) ?_
+      intro a ha
+      cases a with
+      | none => exact h2 ha
+      | some x => exact h1 x.1 x.2 ha
+
+theorem vftCheck_np (reg : Registry) (fb : Option Region) (fns : List SFunc) (p : Path)
+    (h : ∀ b, fb = some b → b.name.isSome = true) : PO NoSite (C06.vftCheck reg fb fns p) := by
+  unfold C06.vftCheck
+  split
+  · split
+    · po_triv
+    · split <;> po_triv
+  · po_triv
+  · next h1 h2 =>
+    refine PO.cast (baseVftable_np _ fb h) ?_
+    intro a ha
+    cases a with
+    | none => exact h2 ha
+    | some x => exact h1 x.1 x.2 ha
+
+/-- `vftable::build` does not panic, and the only change it makes to the state is adding the generated item -/
+theorem buildVftable_shape (s : State) (owner : Path) (vis : Vis) (fb : Option Region) (vfns : Option (List SFunc))
+    (h : ∀ b, fb = some b → b.name.isSome = true) :
+    PO NoSite (buildVftable s owner vis fb vfns).2 ∧
+    ((buildVftable s owner vis fb vfns).1 = s ∨
+      ∃ fns item, buildVftableItem s.reg owner vis fns = some item ∧
+        s.addItem item = .ok (buildVftable s owner vis fb vfns).1) := by
+  cases vfns with
+  | none =>
+    refine ⟨?_, Or.inl rfl⟩
+    unfold buildVftable
+    simp only []
+    split
+    · po_triv
+    · po_triv
+    · next h1 h2 =>
+      refine PO.cast (baseVftable_np _ fb h) ?_
+      intro a ha
+      cases a with
+      | none => exact h2 ha
+      | some x => exact h1 x.1 x.2 ha
+  | some fns =>
+    cases hi : buildVftableItem s.reg owner vis fns with
+    | none =>
+      have e : buildVftable s owner vis fb (some fns) = (s, .ok (none, none)) := by
+        unfold buildVftable; simp only [hi]
+      rw [e]; exact ⟨PO.ok _, Or.inl rfl⟩
+    | some item =>
+      cases hc : (match s.reg.get item.path with | some e => e != item | none => false) with
+      | true =>
+        have e : buildVftable s owner vis fb (some fns) =
+            (s, .err "generated vftable type conflicts with another definition of that name") := by
+          unfold buildVftable; simp only [hi]
+          rw [if_pos (by exact hc)]
+        rw [e]; exact ⟨PO.err _, Or.inl rfl⟩
+      | false =>
+        cases ha : s.addItem item with
+        | ok s1 =>
+          rw [C06.buildVftable_eq s s1 owner vis fb fns item hi hc ha]
+          exact ⟨vftCheck_np _ _ _ _ h, Or.inr ⟨fns, item, hi, ha⟩⟩
+        | defer =>
+          have e : buildVftable s owner vis fb (some fns) = (s, .defer) := by
+            unfold buildVftable; simp only [hi, ha]
+            rw [if_neg (by rw [Bool.not_eq_true]; exact hc)]
+            rfl
+          rw [e]; exact ⟨PO.defer, Or.inl rfl⟩
+        | err m =>
+          have e : buildVftable s owner vis fb (some fns) = (s, .err m) := by
+            unfold buildVftable; simp only [hi, ha]
+            rw [if_neg (by rw [Bool.not_eq_true]; exact hc)]
+            rfl
+          rw [e]; exact ⟨PO.err _, Or.inl rfl⟩
+        | panic m =>
+          exact absurd ha (fun hp => addItem_np s item m hp)
+
+/-! ## naming the regions -/
+
+theorem nameRegions_np (reg : Registry) (ps : List (Layout.Placed Region)) (off : Nat)
+    (h : reg.contains ["u8"] = true) : PO NoSite (nameRegions reg off ps) := by
+  induction ps generalizing off with
+  | nil => exact PO.ok _
+  | cons p ps ih =>
+    unfold nameRegions
+    split
+    · simp only []
+      split
+      · po_triv
+      · exact ih _
+    · next hne =>
+      refine PO.cast ?_ hne
+      split
+      · po_triv
+      · split
+        · po_triv
+        · next hne2 => exact PO.cast (paddingType_np reg _ h) hne2
+
+theorem nameRegions_named (reg : Registry) (ps : List (Layout.Placed Region)) (off : Nat) (regions : List Region)
+    (h : nameRegions reg off ps = .ok regions) : ∀ r ∈ regions, r.name.isSome = true := by
+  induction ps generalizing off regions with
+  | nil => simp only [nameRegions] at h; cases h; intro r hr; cases hr
+  | cons p ps ih =>
+    unfold nameRegions at h
+    split at h
+    · next r0 _ =>
+      simp only [] at h
+      split at h
+      · next rs hrs =>
+        cases h
+        intro r hr
+        rcases List.mem_cons.mp hr with rfl | hr
+        · cases hn : r0.name <;> simp [hn]
+        · exact ih _ rs hrs r hr
+      · next hne => exact absurd h (hne _)
+    · exact absurd h (C01.cast_ne_ok _ _)
+/-! ## the invariant under `add_item` and `set_state` -/
+
+theorem moduleFor_addItem (s s' : State) (i : ItemDef) (h : s.addItem i = .ok s') (p : Path) (m : Mod)
+    (hm : s.moduleFor p = some m) : ∃ m', s'.moduleFor p = some m' := by
+  unfold State.moduleFor at hm ⊢
+  split at hm
+  · cases hm
+  · next parent hp =>
+    obtain ⟨dp, hdp⟩ := C14.addItem_getModule s s' i h parent m hm
+    exact ⟨_, hdp⟩
+
+theorem addItem_parent (s s' : State) (i : ItemDef) (h : s.addItem i = .ok s') :
+    ∃ m, s.moduleFor i.path = some m := by
+  unfold State.addItem at h
+  unfold State.moduleFor
+  split at h
+  · cases h
+  · next parent hp =>
+    split at h
+    · cases h
+    · next m hm => exact ⟨m, hm⟩
+
+theorem regOk_add {r : Registry} (hr : RegOk r) (i : ItemDef)
+    (hal : ∀ res, i.state = .res res → GoodAl res.align)
+    (hu8 : i.path = ["u8"] → i.isResolved = true) : RegOk (r.add i) := by
+  refine ⟨hr.ps_pow2, hr.ps_small, ?_, ?_, ?_, ?_⟩
+  · obtain ⟨j, hj, hjr⟩ := hr.u8
+    rw [C14.get_add]
+    by_cases hp : ["u8"] = i.path
+    · rw [if_pos hp]; exact ⟨i, rfl, hu8 hp.symm⟩
+    · rw [if_neg hp]; exact ⟨j, hj, hjr⟩
+  · have := C10.keys_add r i
+    unfold C10.keys at this
+    rw [this, List.nodup_cons]
+    exact ⟨by simp, List.Nodup.sublist List.filter_sublist hr.keys⟩
+  · intro p j hj
+    rw [C14.get_add] at hj
+    by_cases hp : p = i.path
+    · rw [if_pos hp] at hj; cases hj; exact hp.symm
+    · rw [if_neg hp] at hj; exact hr.wellKeyed p j hj
+  · intro p j res hj hres
+    rw [C14.get_add] at hj
+    by_cases hp : p = i.path
+    · rw [if_pos hp] at hj; cases hj; exact hal res hres
+    · rw [if_neg hp] at hj; exact hr.aligns p j res hj hres
+
+theorem addItem_ok (s s' : State) (i : ItemDef) (hs : StateOk s) (h : s.addItem i = .ok s')
+    (hal : ∀ res, i.state = .res res → GoodAl res.align)
+    (hu8 : i.path = ["u8"] → i.isResolved = true) : StateOk s' := by
+  have hreg := C14.addItem_reg s s' i h
+  refine ⟨?_, ?_⟩
+  · rw [hreg]; exact regOk_add hs.reg i hal hu8
+  · intro p j hj hnp
+    rw [hreg, C14.get_add] at hj
+    by_cases hp : p = i.path
+    · subst hp
+      obtain ⟨m, hm⟩ := addItem_parent s s' i h
+      exact moduleFor_addItem s s' i h _ m hm
+    · rw [if_neg hp] at hj
+      obtain ⟨m, hm⟩ := hs.parents p j hj hnp
+      exact moduleFor_addItem s s' i h p m hm
+
+theorem addItem_lits (s s' : State) (i : ItemDef) (hl : Lits s) (h : s.addItem i = .ok s')
+    (hlit : ∀ d, i.state = .unres d → ItemBounded d) : Lits s' := by
+  have hreg := C14.addItem_reg s s' i h
+  intro p j d hj hd
+  rw [hreg, C14.get_add] at hj
+  by_cases hp : p = i.path
+  · rw [if_pos hp] at hj; cases hj; exact hlit d hd
+  · rw [if_neg hp] at hj; exact hl p j d hj hd
+
+theorem get_setState (r : Registry) (p q : Path) (x : IState) :
+    (r.setState p x).get q = if q = p then (r.get q).map (fun i => { i with state := x }) else r.get q := by
+  unfold Registry.setState Registry.get
+  simp only
+  induction r.types with
+  | nil => simp
+  | cons e l ih =>
+    obtain ⟨k, v⟩ := e
+    by_cases hk : k = p
+    · subst hk
+      by_cases hq : q = k
+      · subst hq; simp
+      · have : (q == k) = false := by simpa using hq
+        simp only [List.map_cons, beq_self_eq_true, if_true, List.lookup_cons, this, ih, if_neg hq]
+    · have hk' : (k == p) = false := by simpa using hk
+      by_cases hq : q = k
+      · subst hq; simp [hk]
+      · have : (q == k) = false := by simpa using hq
+        simp only [List.map_cons, hk', Bool.false_eq_true, if_false, List.lookup_cons, this, ih]
+
+theorem setState_ok (s : State) (p : Path) (r : Resolved) (hs : StateOk s) (hr : GoodAl r.align) :
+    StateOk { s with reg := s.reg.setState p (.res r) } := by
+  refine ⟨⟨hs.reg.ps_pow2, hs.reg.ps_small, ?_, ?_, ?_, ?_⟩, ?_⟩
+  · obtain ⟨j, hj, hjr⟩ := hs.reg.u8
+    simp only [get_setState, hj]
+    by_cases hp : ["u8"] = p
+    · rw [if_pos hp]; exact ⟨_, rfl, rfl⟩
+    · rw [if_neg hp]; exact ⟨j, rfl, hjr⟩
+  · have := C10.keys_setState s.reg p (.res r)
+    unfold C10.keys at this
+    simp only [this]; exact hs.reg.keys
+  · intro q j hj
+    simp only [get_setState] at hj
+    by_cases hp : q = p
+    · rw [if_pos hp] at hj
+      cases hg : s.reg.get q with
+      | none => simp [hg] at hj
+      | some j0 =>
+        simp only [hg, Option.map_some, Option.some.injEq] at hj
+        subst hj
+        exact hs.reg.wellKeyed q j0 hg
+    · rw [if_neg hp] at hj; exact hs.reg.wellKeyed q j hj
+  · intro q j res hj hres
+    simp only [get_setState] at hj
+    by_cases hp : q = p
+    · rw [if_pos hp] at hj
+      cases hg : s.reg.get q with
+      | none => simp [hg] at hj
+      | some j0 =>
+        simp only [hg, Option.map_some, Option.some.injEq] at hj
+        subst hj
+        simp only [IState.res.injEq] at hres
+        subst hres
+        exact hr
+    · rw [if_neg hp] at hj; exact hs.reg.aligns q j res hj hres
+  · intro q j hj hnp
+    simp only [get_setState] at hj
+    by_cases hp : q = p
+    · rw [if_pos hp] at hj
+      cases hg : s.reg.get q with
+      | none => simp [hg] at hj
+      | some j0 =>
+        simp only [hg, Option.map_some, Option.some.injEq] at hj
+        subst hj
+        exact hs.parents q j0 hg hnp
+    · rw [if_neg hp] at hj; exact hs.parents q j hj hnp
+
+theorem setState_lits (s : State) (p : Path) (r : Resolved) (hl : Lits s) :
+    Lits { s with reg := s.reg.setState p (.res r) } := by
+  intro q j d hj hd
+  simp only [get_setState] at hj
+  by_cases hp : q = p
+  · rw [if_pos hp] at hj
+    cases hg : s.reg.get q with
+    | none => simp [hg] at hj
+    | some j0 =>
+      simp only [hg, Option.map_some, Option.some.injEq] at hj
+      subst hj
+      cases hd
+  · rw [if_neg hp] at hj; exact hl q j d hj hd
+
+theorem StateOk.u8c {s : State} (hs : StateOk s) : s.reg.contains ["u8"] = true := by
+  obtain ⟨j, hj, _⟩ := hs.reg.u8
+  simp [Registry.contains, hj]
+/-! ## `resolve_regions` -/
+
+theorem vftableItem_ok (s s1 : State) (owner : Path) (vis : Vis) (fns : List SFunc) (item : ItemDef)
+    (hs : StateOk s) (hi : buildVftableItem s.reg owner vis fns = some item) (ha : s.addItem item = .ok s1) :
+    StateOk s1 ∧ (Lits s → Lits s1) := by
+  unfold buildVftableItem at hi
+  obtain ⟨q, _, rfl⟩ := Option.map_eq_some_iff.mp hi
+  refine ⟨addItem_ok s s1 _ hs ha ?_ (fun _ => rfl), fun hl => addItem_lits s s1 _ hl ha ?_⟩
+  · intro res hres
+    simp only [IState.res.injEq] at hres
+    subst hres
+    exact goodAl_ps hs.reg
+  · intro d hd; cases hd
+
+/-- what a step may do to the state: keep the invariant and the modules -/
+structure Keeps (s s1 : State) : Prop where
+  ok : StateOk s1
+  mods : ∀ q m, s.moduleFor q = some m → ∃ m', s1.moduleFor q = some m'
+  lits : Lits s → Lits s1
+
+theorem Keeps.refl {s : State} (hs : StateOk s) : Keeps s s := ⟨hs, fun _ m hm => ⟨m, hm⟩, fun h => h⟩
+
+theorem buildVftable_keeps (s : State) (owner : Path) (vis : Vis) (fb : Option Region) (vfns : Option (List SFunc))
+    (hs : StateOk s) (h : ∀ b, fb = some b → b.name.isSome = true) :
+    Keeps s (buildVftable s owner vis fb vfns).1 := by
+  rcases (buildVftable_shape s owner vis fb vfns h).2 with e | ⟨fns, item, hi, ha⟩
+  · rw [e]; exact Keeps.refl hs
+  · obtain ⟨k1, k2⟩ := vftableItem_ok s _ owner vis fns item hs hi ha
+    exact ⟨k1, fun q m hm => moduleFor_addItem s _ item ha q m hm, k2⟩
+
+theorem resolveRegions_shape (s : State) (owner : Path) (vis : Vis) (target : Option Nat)
+    (pending : List (Option Nat × Region)) (vfns : Option (List SFunc)) (hs : StateOk s)
+    (hp : ∀ p ∈ pending, p.2.isBase = true → p.2.name.isSome = true) :
+    Keeps s (resolveRegions s owner vis target pending vfns).1 ∧
+      PO NoSite (resolveRegions s owner vis target pending vfns).2 := by
+  have hfb : ∀ b, (pending.map (·.2)).find? (·.isBase) = some b → b.name.isSome = true := by
+    intro b hb
+    have h1 := List.mem_of_find?_eq_some hb
+    have h2 := List.find?_some hb
+    obtain ⟨p, hp1, rfl⟩ := List.mem_map.mp h1
+    exact hp p hp1 h2
+  have hk := buildVftable_keeps s owner vis _ vfns hs hfb
+  have hn := (buildVftable_shape s owner vis _ vfns hfb).1
+  unfold resolveRegions
+  simp only []
+  split
+  · exact ⟨Keeps.refl hs, PO.defer⟩
+  · exact ⟨Keeps.refl hs, PO.defer⟩
+  · exact ⟨Keeps.refl hs, PO.err _⟩
+  · next m hm =>
+    exfalso
+    split at hm
+    · exact rsize_np _ _ _ hm
+    · cases hm
+  · split
+    · next s1 vft vregion hb =>
+      rw [hb] at hk hn
+      refine ⟨hk, ?_⟩
+      simp only []
+      split
+      · split
+        · po_triv
+        · next hne => exact PO.cast (nameRegions_np _ _ _ hk.ok.u8c) hne
+      · next hne =>
+        refine PO.cast (resolve_np _ _ _ ?_ ?_) (fun a ha => hne a.1 a.2 ha)
+        · intro v hv
+          cases vregion with
+          | none => cases hv
+          | some r => simp only [Option.map_some, Option.some.injEq] at hv; subst hv; exact rsize_np _ _
+        · intro f hf
+          obtain ⟨p, _, rfl⟩ := List.mem_map.mp hf
+          exact rsize_np _ _
+    · next s1 e hne hb =>
+      rw [hb] at hk hn
+      exact ⟨hk, PO.cast hn (fun a ha => hne a.1 a.2 ha)⟩
+/-! ## `type_definition::build` -/
+
+theorem injectBases_np (reg : Registry) (regions : List Region) (acc : InjAcc)
+    (h : ∀ r ∈ regions, r.name.isSome = true) : PO NoSite (injectBases reg regions acc) := by
+  unfold injectBases
+  apply PO.foldlM
+  intro acc ib hib
+  have hn : ib.2.name.isSome = true := by
+    obtain ⟨p, hp, rfl⟩ := List.mem_map.mp hib
+    obtain ⟨x, i⟩ := p
+    rw [List.mem_zipIdx_iff_getElem?] at hp
+    exact h x (List.mem_filter.mp (List.mem_of_getElem? hp)).1
+  simp only []
+  split
+  · po_triv
+  · po_triv
+  · next h1 h2 =>
+    refine PO.cast (regionNameAndTypeDef_np reg _ hn) ?_
+    intro a ha
+    cases a with
+    | none => exact h1 ha
+    | some x => exact h2 x.1 x.2 ha
+
+theorem addImplFns_np (reg : Registry) (scope : List Path) (impl : Option G.Impl) (acc : InjAcc)
+    (h : reg.contains ["u8"] = true) : PO NoSite (addImplFns reg scope impl acc) := by
+  unfold addImplFns
+  split
+  · po_triv
+  · apply PO.foldlM
+    intro acc f _
+    split
+    · po_triv
+    · split
+      · po_triv
+      · next hne => exact PO.cast (buildFunction_np reg scope false f h) hne
+
+theorem checkDefaultable_np (reg : Registry) (regions : List Region) : PO NoSite (checkDefaultable reg regions) := by
+  unfold checkDefaultable
+  apply PO.foldlM
+  intro b a _ site h
+  no_panic_at h
+
+theorem tryUsize_le (v : Int) (n : Nat) (h : tryUsize v = some n) (hv : v ≤ isizeMax) : n ≤ 2 ^ 63 := by
+  unfold tryUsize at h
+  split at h
+  · cases h
+    unfold isizeMax at hv
+    omega
+  · cases h
+
+theorem typeAttrStep_bound (st st' : TypeAttrs) (a : G.Attr)
+    (ha : ∀ n args z, a = .fn n args → G.Expr.int z ∈ args → isizeMin ≤ z ∧ z ≤ isizeMax)
+    (hI : ∀ x, st.align = some x → x ≤ 2 ^ 63) (h : typeAttrStep st a = .ok st') :
+    ∀ x, st'.align = some x → x ≤ 2 ^ 63 := by
+  unfold typeAttrStep at h
+  split at h
+  · split at h
+    · cases h; exact hI
+    · cases h
+  · split at h
+    · cases h; exact hI
+    · cases h
+  · next v =>
+    split at h
+    · next n hn =>
+      cases h
+      intro x hx
+      simp only [Option.some.injEq] at hx
+      subst hx
+      exact tryUsize_le v n hn (ha _ _ v rfl (by simp)).2
+    · cases h
+  · cases h; exact hI
+  · cases h; exact hI
+  · cases h; exact hI
+  · cases h; exact hI
+  · cases h; exact hI
+
+theorem typeAttrs_bound (attrs : List G.Attr) (hb : AttrsBounded attrs) (ta : TypeAttrs)
+    (h : Res.foldlM typeAttrStep {} attrs = .ok ta) : ∀ x, ta.align = some x → x ≤ 2 ^ 63 := by
+  refine (PO.foldlM_inv (S := fun _ => True) (fun st : TypeAttrs => ∀ x, st.align = some x → x ≤ 2 ^ 63)
+    typeAttrStep attrs {} (fun x hx => by cases hx) ?_).2 ta h
+  intro st a hmem hI
+  refine ⟨fun _ _ => trivial, fun st' hst => typeAttrStep_bound st st' a ?_ hI hst⟩
+  intro n args z hn hz
+  subst hn
+  exact hb n args z hmem hz
+
+/-- the outcome of building an item: panics only at the allocation limit, and a result has a good alignment -/
+def RG (B : Prop) (x : Res Resolved) : Prop := PO Alloc x ∧ (B → ∀ r, x = .ok r → GoodAl r.align)
+
+theorem RG.err {B : Prop} (m : String) : RG B (.err m) := ⟨PO.err m, fun _ _ h => by cases h⟩
+theorem RG.defer {B : Prop} : RG B .defer := ⟨PO.defer, fun _ _ h => by cases h⟩
+theorem RG.cast {B : Prop} {α} {e : Res α} (h : PO Alloc e) (hne : ∀ a, e = .ok a → False) : RG B e.cast :=
+  ⟨PO.cast h hne, fun _ _ hr => absurd hr (C01.cast_ne_ok _ _)⟩
+
+/-- `type_definition::build`: the state keeps the invariant, the only panic is the allocation limit, and
+    – when the attribute literals are `isize`s – the alignment of the result is a power of two `≤ 2 ^ 63` -/
+theorem buildType_shape (s : State) (path : Path) (vis : Vis) (d : G.TypeDef) (hs : StateOk s) :
+    Keeps s (buildType s path vis d).1 ∧ RG (AttrsBounded d.attrs) (buildType s path vis d).2 := by
+  unfold buildType
+  split
+  · exact ⟨Keeps.refl hs, RG.err _⟩
+  · next module hmod =>
+    split
+    · exact ⟨Keeps.refl hs, RG.err _⟩
+    · split
+      · next ta hta =>
+        have hstm := PO.foldlM_inv (S := Alloc) PendOk (stmtStep s.reg module.scope)
+          (d.stmts.zipIdx.map fun p => (p.2, p.1)) {} (fun p hp => by cases hp)
+          (fun acc ist _ hacc => ⟨stmtStep_po _ _ _ _ hs.u8c, fun acc' h => stmtStep_pend _ _ _ _ _ hacc h⟩)
+        split
+        · next sa hsa =>
+          have hpend := hstm.2 sa hsa
+          have sh := resolveRegions_shape s path vis ta.targetSize sa.pending sa.vfns hs hpend
+          split
+          · next s1 regions vft size placed hrr =>
+            rw [hrr] at sh
+            obtain ⟨vregion, hres, hname⟩ := C01.resolveRegions_inv _ _ _ _ _ _ _ _ _ _ _ hrr
+            have hk : Keeps s s1 := sh.1
+            have hreg := hk.ok.reg
+            obtain ⟨hgood, hsum⟩ := resolve_good _ _ _ _ _ hres
+              (by
+                intro v hv s0 hs0
+                cases vregion with
+                | none => cases hv
+                | some _ =>
+                  simp only [Option.map_some, Option.some.injEq] at hv; subst hv
+                  exact rty_good hreg _ s0 hs0)
+              (by
+                intro f hf s0 hs0
+                obtain ⟨p, _, rfl⟩ := List.mem_map.mp hf
+                exact rty_good hreg _ s0 hs0)
+            refine ⟨hk, ?_⟩
+            simp only []
+            split
+            · next hnone =>
+              obtain ⟨m', hm'⟩ := hk.mods path module hmod
+              rw [hm'] at hnone; cases hnone
+            · split
+              · split
+                · split
+                  · split
+                    · next alignment hal =>
+                      refine ⟨PO.ok _, fun hb r hr => ?_⟩
+                      cases hr
+                      exact alignCheck_good _ _ _ _ _ _ (goodAl_ps hreg) (typeAttrs_bound _ hb ta hta) hgood hal
+                    · next hne => exact RG.cast (alignCheck_np _ _ _ _ _ hgood hsum).alloc hne
+                  · next hne =>
+                    refine RG.cast ?_ (fun a ha => hne ha)
+                    split
+                    · exact (checkDefaultable_np _ _).alloc
+                    · po_triv
+                · next hne => exact RG.cast (addImplFns_np _ _ _ _ hk.ok.u8c).alloc hne
+              · next hne =>
+                exact RG.cast (injectBases_np _ _ _ (nameRegions_named _ _ _ _ hname)).alloc hne
+          · next s1 e hne hrr =>
+            rw [hrr] at sh
+            exact ⟨sh.1, RG.cast sh.2.alloc (fun a ha => hne a.1 a.2.1 a.2.2.1 a.2.2.2 ha)⟩
+        · next hne => exact ⟨Keeps.refl hs, RG.cast hstm.1 hne⟩
+      · next hne =>
+        exact ⟨Keeps.refl hs, RG.cast (PO.foldlM _ _ _ (fun b a _ => typeAttrStep_np b a)).alloc hne⟩
+/-! ## `enum_definition::build` -/
+
+theorem enumStmtStep_np (range : Int × Int) (acc : EnumAcc) (st : G.EnumStmt) :
+    PO NoSite (enumStmtStep range acc st) := by
+  unfold enumStmtStep
+  split
+  · split
+    · po_triv
+    · split
+      · po_triv
+      · simp only []
+        split
+        · po_triv
+        · next hne =>
+          refine PO.cast (PO.foldlM _ _ _ ?_) hne
+          intro di a _ site h
+          no_panic_at h
+  · next hne =>
+    refine PO.cast ?_ hne
+    intro site h
+    no_panic_at h
+
+theorem buildEnum_po (s : State) (p : Path) (d : G.EnumDef) (h : s.reg.contains ["u8"] = true) :
+    PO NoSite (buildEnum s p d) := by
+  unfold buildEnum
+  split
+  · po_triv
+  · split
+    · split
+      · po_triv
+      · split
+        · po_triv
+        · split
+          · po_triv
+          · split
+            · split
+              · po_triv
+              · split
+                · split
+                  · po_triv
+                  · split
+                    · po_triv
+                    · split <;> po_triv
+                · next hne => exact PO.cast (PO.foldlM _ _ _ (fun b a _ => enumAttrStep_np b a)) hne
+            · next hne => exact PO.cast (PO.foldlM _ _ _ (fun b a _ => enumStmtStep_np _ b a)) hne
+      · next h1 h2 =>
+        refine PO.cast (dsize_np _ _) ?_
+        intro a ha
+        cases a with
+        | none => exact h1 ha
+        | some x => exact h2 x ha
+    · next hne => exact PO.cast (resolveTy_np _ _ _ h) hne
+
+theorem buildEnum_shape (s : State) (p : Path) (d : G.EnumDef) (hs : StateOk s) : RG True (buildEnum s p d) := by
+  refine ⟨(buildEnum_po s p d hs.u8c).alloc, fun _ r hr => ?_⟩
+  obtain ⟨ed, range, _, _, _, hal⟩ := C02.buildEnum_inv s p d r hr
+  exact dalign_good hs.reg _ _ hal
+
+/-! ## one attempt -/
+
+/-- under the invariant an attempt panics only at the allocation limit -/
+theorem attemptItem_po (s : State) (p : Path) (hs : StateOk s) : PO Alloc (attemptItem s p).2 := by
+  unfold attemptItem
+  split
+  · exact PO.err _
+  · split
+    · exact PO.ok _
+    · next d _ =>
+      split
+      · next td _ =>
+        have sh := (buildType_shape s p d.vis td hs).2.1
+        split
+        · exact PO.ok _
+        · exact PO.ok _
+        · exact PO.err _
+        · next s1 m hb => rw [hb] at sh; exact sh.of_panic rfl
+      · next ed _ =>
+        have sh := (buildEnum_shape s p ed hs).1
+        split
+        · exact PO.ok _
+        · exact PO.ok _
+        · exact PO.err _
+        · next m hb => exact sh.of_panic hb
+
+/-- an attempt keeps the invariant when the literals of the definitions are `isize`s -/
+theorem attemptItem_ok (s : State) (p : Path) (hs : StateOkB s) : StateOkB (attemptItem s p).1 := by
+  unfold attemptItem
+  split
+  · exact hs
+  · next item hget =>
+    split
+    · exact hs
+    · next d hd =>
+      have hbd := hs.lits p item d hget hd
+      unfold ItemBounded at hbd
+      split
+      · next td htd =>
+        rw [htd] at hbd
+        have sh := buildType_shape s p d.vis td hs.ok
+        split
+        · next s1 r hb =>
+          rw [hb] at sh
+          exact ⟨setState_ok s1 p r sh.1.ok (sh.2.2 hbd r rfl), setState_lits s1 p r (sh.1.lits hs.lits)⟩
+        · next s1 hb => rw [hb] at sh; exact ⟨sh.1.ok, sh.1.lits hs.lits⟩
+        · next s1 m hb => rw [hb] at sh; exact ⟨sh.1.ok, sh.1.lits hs.lits⟩
+        · next s1 m hb => rw [hb] at sh; exact ⟨sh.1.ok, sh.1.lits hs.lits⟩
+      · next ed _ =>
+        have sh := buildEnum_shape s p ed hs.ok
+        split
+        · next r hb => exact ⟨setState_ok s p r hs.ok (sh.2 trivial r hb), setState_lits s p r hs.lits⟩
+        · exact hs
+        · exact hs
+        · exact hs
+
+theorem runRound_shape (l : List Path) (s : State) (hs : StateOkB s) :
+    StateOkB (runRound s l).1 ∧ PO Alloc (runRound s l).2 := by
+  induction l generalizing s with
+  | nil => exact ⟨hs, PO.ok _⟩
+  | cons p ps ih =>
+    have h1 := attemptItem_ok s p hs
+    have h2 := attemptItem_po s p hs.ok
+    unfold runRound
+    split
+    · next s1 ha => rw [ha] at h1; exact ih s1 h1
+    · next s1 e _ ha => rw [ha] at h1 h2; exact ⟨h1, h2⟩
+
+/-! ## the resolution loop and `build` -/
+
+/-- what the resolution loop may end in -/
+def LoopGood : BuildOutcome → Prop
+  | .ok s1 => StateOkB s1
+  | .panic site => site = allocSite
+  | _ => True
+
+/-- what a build may end in -/
+def BuildGood : BuildOutcome → Prop
+  | .panic site => site = allocSite
+  | .fuel => False
+  | _ => True
+
+theorem resolveLoop_shape (prio : List Path) (fuel : Nat) (s : State) (hs : StateOkB s) :
+    LoopGood (resolveLoop prio fuel s) := by
+  induction fuel generalizing s with
+  | zero => simp [resolveLoop, LoopGood]
+  | succ n ih =>
+    unfold resolveLoop
+    simp only []
+    split
+    · exact hs
+    · have hr := runRound_shape (s.reg.unresolved prio) s hs
+      split
+      · next s1 h1 =>
+        rw [h1] at hr
+        split
+        · trivial
+        · exact ih s1 hr.1
+      · trivial
+      · next s1 m h1 => rw [h1] at hr; exact hr.2 m rfl
+      · trivial
+
+theorem resolveXVals_np (reg : Registry) (m : Mod) (h : reg.contains ["u8"] = true) :
+    PO NoSite (resolveXVals reg m) := by
+  unfold resolveXVals
+  split
+  · po_triv
+  · next hne =>
+    refine PO.cast (PO.mapM' _ _ ?_) hne
+    intro ev _
+    split
+    · po_triv
+    · po_triv
+    · next h1 h2 =>
+      refine PO.cast (resolveTy_np reg _ _ h) ?_
+      intro a ha
+      exact h1 a ha
+
+theorem build_shape (s : State) (prio : List Path) (hs : StateOkB s) : BuildGood (s.build prio) := by
+  have h1 := resolveLoop_shape prio (2 * (s.reg.types.filter fun e => !e.2.isResolved).length + 2) s hs
+  have h2 := C10.resolveLoop_ne_fuel prio (2 * (s.reg.types.filter fun e => !e.2.isResolved).length + 2) s
+    hs.ok.reg.keys (by have := C10.mu_le s.reg; omega)
+  unfold State.build
+  simp only []
+  split
+  · next s1 hrl =>
+    rw [hrl] at h1
+    split
+    · trivial
+    · trivial
+    · next m hm =>
+      exfalso
+      refine PO.mapM' (S := NoSite) _ _ ?_ m hm
+      intro e _
+      split
+      · po_triv
+      · next hne => exact PO.cast (resolveXVals_np _ _ h1.ok.u8c) hne
+    · trivial
+  · next x hne =>
+    cases hx : resolveLoop prio (2 * (s.reg.types.filter fun e => !e.2.isResolved).length + 2) s with
+    | ok s1 => exact absurd hx (hne s1)
+    | nonterm f => trivial
+    | err m => trivial
+    | panic site => rw [hx] at h1; exact h1
+    | fuel => exact absurd hx h2
+
+/-! ## `SemanticState::new` -/
+
+/-- `RegOk` without the presence of `u8` -/
+structure RegOk0 (r : Registry) : Prop where
+  ps_pow2 : Layout.isPow2 r.ps = true
+  ps_small : r.ps ≤ 2 ^ 32
+  keys : (r.types.map (·.1)).Nodup
+  wellKeyed : ∀ p i, r.get p = some i → i.path = p
+  aligns : ∀ p i res, r.get p = some i → i.state = .res res → GoodAl res.align
+
+theorem regOk0_add {r : Registry} (hr : RegOk0 r) (i : ItemDef)
+    (hal : ∀ res, i.state = .res res → GoodAl res.align) : RegOk0 (r.add i) := by
+  refine ⟨hr.ps_pow2, hr.ps_small, ?_, ?_, ?_⟩
+  · have := C10.keys_add r i
+    unfold C10.keys at this
+    rw [this, List.nodup_cons]
+    exact ⟨by simp, List.Nodup.sublist List.filter_sublist hr.keys⟩
+  · intro p j hj
+    rw [C14.get_add] at hj
+    by_cases hp : p = i.path
+    · rw [if_pos hp] at hj; cases hj; exact hp.symm
+    · rw [if_neg hp] at hj; exact hr.wellKeyed p j hj
+  · intro p j res hj hres
+    rw [C14.get_add] at hj
+    by_cases hp : p = i.path
+    · rw [if_pos hp] at hj; cases hj; exact hal res hres
+    · rw [if_neg hp] at hj; exact hr.aligns p j res hj hres
+
+theorem predefinedAlign_good : ∀ nm ∈ Gen.predefinedTypes, GoodAl (Gen.predefinedAlign nm.2) := by
+  intro nm hnm
+  simp only [Gen.predefinedTypes, List.mem_cons, List.not_mem_nil, or_false] at hnm
+  have h1 : GoodAl 1 := goodAl_one
+  have h2 : GoodAl 2 := ⟨(Layout.isPow2_iff 2).mpr ⟨1, rfl⟩, by decide⟩
+  have h4 : GoodAl 4 := ⟨(Layout.isPow2_iff 4).mpr ⟨2, rfl⟩, by decide⟩
+  have h8 : GoodAl 8 := ⟨(Layout.isPow2_iff 8).mpr ⟨3, rfl⟩, by decide⟩
+  have h16 : GoodAl 16 := ⟨(Layout.isPow2_iff 16).mpr ⟨4, rfl⟩, by decide⟩
+  rcases hnm with rfl | rfl | rfl | rfl | rfl | rfl | rfl | rfl | rfl | rfl | rfl | rfl | rfl | rfl <;>
+    first | exact h1 | exact h2 | exact h4 | exact h8 | exact h16
+
+/-- invariant of the fold in `SemanticState::new` -/
+structure NewInv (s : State) : Prop where
+  reg : RegOk0 s.reg
+  root : (s.getModule []).isSome = true
+  pre : ∀ p i, s.reg.get p = some i → i.isPredefined = true ∧ i.isResolved = true
+
+theorem newStep_inv (s : State) (nm : String × Nat) (hs : NewInv s) (hnm : nm ∈ Gen.predefinedTypes) :
+    NewInv (C02.newStep s nm) := by
+  obtain ⟨h1, h2⟩ := C02.newStep_spec s nm hs.root
+  refine ⟨?_, h1, ?_⟩
+  · rw [h2]
+    refine regOk0_add hs.reg _ ?_
+    intro res hres
+    simp only [C02.predefItem, IState.res.injEq] at hres
+    subst hres
+    exact predefinedAlign_good nm hnm
+  · intro p i hi
+    rw [h2, C14.get_add] at hi
+    by_cases hp : p = (C02.predefItem nm).path
+    · rw [if_pos hp] at hi; cases hi; exact ⟨rfl, rfl⟩
+    · rw [if_neg hp] at hi; exact hs.pre p i hi
+
+theorem new_inv (ps : Nat) (h : ps = 4 ∨ ps = 8) : NewInv (State.new ps) := by
+  rw [C02.new_eq]
+  have h0 : NewInv { modules := [([], ({} : Mod))], reg := { ps := ps } } := by
+    refine ⟨⟨?_, ?_, ?_, ?_, ?_⟩, rfl, ?_⟩
+    · rcases h with rfl | rfl
+      · exact (Layout.isPow2_iff 4).mpr ⟨2, rfl⟩
+      · exact (Layout.isPow2_iff 8).mpr ⟨3, rfl⟩
+    · rcases h with rfl | rfl <;> decide
+    · exact List.nodup_nil
+    · intro p i hi; cases hi
+    · intro p i res hi; cases hi
+    · intro p i hi; cases hi
+  have : ∀ (l : List (String × Nat)) (s : State), (∀ nm ∈ l, nm ∈ Gen.predefinedTypes) → NewInv s →
+      NewInv (l.foldl C02.newStep s) := by
+    intro l
+    induction l with
+    | nil => intro s _ hs; exact hs
+    | cons x l ih =>
+      intro s hl hs
+      exact ih _ (fun nm hnm => hl nm (by simp [hnm])) (newStep_inv s x hs (hl x (by simp)))
+  exact this _ _ (fun _ h => h) h0
+
+theorem new_okB (ps : Nat) (h : ps = 4 ∨ ps = 8) : StateOkB (State.new ps) := by
+  have hi := new_inv ps h
+  refine ⟨⟨⟨hi.reg.ps_pow2, hi.reg.ps_small, ?_, hi.reg.keys, hi.reg.wellKeyed, hi.reg.aligns⟩, ?_⟩, ?_⟩
+  · exact ⟨_, C02.new_get ps ("u8", 1) (by decide), rfl⟩
+  · intro p i hi' hnp
+    exact absurd (hi.pre p i hi').1 hnp
+  · intro p i d hi' hd
+    have := (hi.pre p i hi').2
+    simp [ItemDef.isResolved, ItemDef.resolved?, hd] at this
+/-! ## `add_module` -/
+
+theorem defStep_np (path : Path) (s : State) (d : G.Item) : PO NoSite (C14.defStep path s d) := by
+  unfold C14.defStep
+  split
+  · po_triv
+  · exact addItem_np _ _
+
+theorem xtypeStep_np (path : Path) (s : State) (xt : String × List G.Attr) :
+    PO NoSite (C14.xtypeStep path s xt) := by
+  unfold C14.xtypeStep
+  split
+  · split
+    · po_triv
+    · split
+      · po_triv
+      · split
+        · po_triv
+        · split
+          · po_triv
+          · exact addItem_np _ _
+  · next hne => exact PO.cast (PO.foldlM _ _ _ (fun b a _ => xtypeAttrStep_np b a)) hne
+
+theorem xvalStep_np (ev : G.XVal) : PO NoSite (C14.xvalStep ev) := by
+  unfold C14.xvalStep
+  split
+  · po_triv
+  · po_triv
+  · next h1 h2 =>
+    refine PO.cast (xvalAddress_np _) ?_
+    intro a ha
+    cases a with
+    | none => exact h1 ha
+    | some x => exact h2 x ha
+
+theorem addModule_np (s : State) (m : G.Module) (path : Path) : PO NoSite (s.addModule m path) := by
+  have e : s.addModule m path =
+      (match Res.mapM' C14.xvalStep m.xvals with
+       | .ok xvals =>
+         match G.docOf m.attrs with
+         | none => .err "doc attribute must be a string literal"
+         | some doc =>
+           if m.impls.any (fun b => !(m.defs.any fun d =>
+              d.name == b.name && (match d.inner with | .type _ => true | .enum _ => false))) then
+             .err "impl block does not belong to a type defined in that module"
+           else
+           match Res.foldlM (C14.defStep path) (s.putModule path (C14.newMod m path xvals doc)) m.defs with
+           | .ok s2 => Res.foldlM (C14.xtypeStep path) s2 m.xtypes
+           | e => e
+       | e => e.cast) := rfl
+  rw [e]
+  split
+  · split
+    · po_triv
+    · split
+      · po_triv
+      · split
+        · exact PO.foldlM _ _ _ (fun b a _ => xtypeStep_np path b a)
+        · exact PO.foldlM _ _ _ (fun b a _ => defStep_np path b a)
+  · next hne => exact PO.cast (PO.mapM' _ _ (fun a _ => xvalStep_np a)) hne
+
+theorem moduleFor_putModule (s : State) (path : Path) (mod : Mod) (q : Path) (m : Mod)
+    (h : s.moduleFor q = some m) : ∃ m', (s.putModule path mod).moduleFor q = some m' := by
+  unfold State.moduleFor at h ⊢
+  split at h
+  · cases h
+  · next parent hp =>
+    unfold State.getModule State.putModule at *
+    simp only [List.lookup_cons]
+    by_cases hq : parent = path
+    · subst hq; simp
+    · have : (parent == path) = false := by simpa using hq
+      simp only [this]
+      rw [C14.lookup_filter_ne _ _ _ hq]
+      exact ⟨m, h⟩
+
+theorem putModule_ok (s : State) (path : Path) (mod : Mod) (hs : StateOk s) :
+    StateOk (s.putModule path mod) := by
+  refine ⟨hs.reg, ?_⟩
+  intro p i hi hnp
+  obtain ⟨m, hm⟩ := hs.parents p i hi hnp
+  exact moduleFor_putModule s path mod p m hm
+
+theorem defStep_ok (path : Path) (s s' : State) (d : G.Item) (hs : StateOk s)
+    (h : C14.defStep path s d = .ok s') : StateOk s' := by
+  unfold C14.defStep at h
+  split at h
+  · cases h
+  · next hc =>
+    refine addItem_ok s s' _ hs h ?_ ?_
+    · intro res hres; cases hres
+    · intro hp
+      simp only at hp
+      rw [hp, hs.u8c] at hc
+      exact absurd rfl hc
+
+theorem defStep_lits (path : Path) (s s' : State) (d : G.Item) (hl : Lits s) (hd : ItemBounded d)
+    (h : C14.defStep path s d = .ok s') : Lits s' := by
+  unfold C14.defStep at h
+  split at h
+  · cases h
+  · refine addItem_lits s s' _ hl h ?_
+    intro d' hd'
+    simp only [IState.unres.injEq] at hd'
+    subst hd'
+    exact hd
+
+theorem xtypeAttrStep_bound (st st' : XTypeAttrs) (a : G.Attr)
+    (ha : ∀ n args z, a = .fn n args → G.Expr.int z ∈ args → isizeMin ≤ z ∧ z ≤ isizeMax)
+    (hI : ∀ x, st.align = some x → x ≤ 2 ^ 63) (h : xtypeAttrStep st a = .ok st') :
+    ∀ x, st'.align = some x → x ≤ 2 ^ 63 := by
+  unfold xtypeAttrStep at h
+  split at h
+  · split at h
+    · cases h; exact hI
+    · cases h
+  · next v =>
+    split at h
+    · next n hn =>
+      cases h
+      intro x hx
+      simp only [Option.some.injEq] at hx
+      subst hx
+      exact tryUsize_le v n hn (ha _ _ v rfl (by simp)).2
+    · cases h
+  · cases h; exact hI
+
+theorem xtypeAttrs_bound (attrs : List G.Attr) (hb : AttrsBounded attrs) (xa : XTypeAttrs)
+    (h : Res.foldlM xtypeAttrStep {} attrs = .ok xa) : ∀ x, xa.align = some x → x ≤ 2 ^ 63 := by
+  refine (PO.foldlM_inv (S := fun _ => True) (fun st : XTypeAttrs => ∀ x, st.align = some x → x ≤ 2 ^ 63)
+    xtypeAttrStep attrs {} (fun x hx => by cases hx) ?_).2 xa h
+  intro st a hmem hI
+  refine ⟨fun _ _ => trivial, fun st' hst => xtypeAttrStep_bound st st' a ?_ hI hst⟩
+  intro n args z hn hz
+  subst hn
+  exact hb n args z hmem hz
+
+theorem xtypeStep_ok (path : Path) (s s' : State) (xt : String × List G.Attr) (hs : StateOk s)
+    (hb : AttrsBounded xt.2) (h : C14.xtypeStep path s xt = .ok s') : StateOk s' := by
+  unfold C14.xtypeStep at h
+  split at h
+  · next xa hxa =>
+    split at h
+    · cases h
+    · split at h
+      · cases h
+      · next align hal =>
+        split at h
+        · cases h
+        · next hpow =>
+          split at h
+          · cases h
+          · refine addItem_ok s s' _ hs h ?_ (fun _ => rfl)
+            intro res hres
+            simp only [IState.res.injEq] at hres
+            subst hres
+            exact ⟨by simpa using hpow, xtypeAttrs_bound _ hb xa hxa align hal⟩
+  · exact (C14.cast_ne_ok _ _ h).elim
+
+theorem xtypeStep_lits (path : Path) (s s' : State) (xt : String × List G.Attr) (hl : Lits s)
+    (h : C14.xtypeStep path s xt = .ok s') : Lits s' := by
+  unfold C14.xtypeStep at h
+  split at h
+  · split at h
+    · cases h
+    · split at h
+      · cases h
+      · split at h
+        · cases h
+        · split at h
+          · cases h
+          · refine addItem_lits s s' _ hl h ?_
+            intro d hd; cases hd
+  · exact (C14.cast_ne_ok _ _ h).elim
+
+/-- `add_module` keeps `StateOk` when the attributes of its extern types carry `isize` literals -/
+theorem addModule_ok' (s s' : State) (m : G.Module) (path : Path) (hs : StateOk s)
+    (hx : ∀ xt ∈ m.xtypes, AttrsBounded xt.2) (h : s.addModule m path = .ok s') : StateOk s' := by
+  obtain ⟨xvals, doc, s2, _, h1, h2⟩ := C14.addModule_inv s s' m path h
+  have k0 := putModule_ok s path (C14.newMod m path xvals doc) hs
+  have k2 : StateOk s2 :=
+    (PO.foldlM_inv (S := fun _ => True) StateOk (C14.defStep path) m.defs _ k0
+      (fun b d _ hb => ⟨fun _ _ => trivial, fun b' hb' => defStep_ok path b b' d hb hb'⟩)).2 s2 h1
+  exact (PO.foldlM_inv (S := fun _ => True) StateOk (C14.xtypeStep path) m.xtypes _ k2
+      (fun b xt hxt hb => ⟨fun _ _ => trivial, fun b' hb' => xtypeStep_ok path b b' xt hb (hx xt hxt) hb'⟩)).2 s' h2
+
+theorem addModule_lits (s s' : State) (m : G.Module) (path : Path) (hl : Lits s)
+    (hd : ∀ d ∈ m.defs, ItemBounded d) (h : s.addModule m path = .ok s') : Lits s' := by
+  obtain ⟨xvals, doc, s2, _, h1, h2⟩ := C14.addModule_inv s s' m path h
+  have k0 : Lits (s.putModule path (C14.newMod m path xvals doc)) := hl
+  have k2 : Lits s2 :=
+    (PO.foldlM_inv (S := fun _ => True) Lits (C14.defStep path) m.defs _ k0
+      (fun b d hdm hb => ⟨fun _ _ => trivial, fun b' hb' => defStep_lits path b b' d hb (hd d hdm) hb'⟩)).2 s2 h1
+  exact (PO.foldlM_inv (S := fun _ => True) Lits (C14.xtypeStep path) m.xtypes _ k2
+      (fun b xt _ hb => ⟨fun _ _ => trivial, fun b' hb' => xtypeStep_lits path b b' xt hb hb'⟩)).2 s' h2
+
+theorem addModule_okB (s s' : State) (m : G.Module) (path : Path) (hs : StateOkB s) (hm : ModuleBounded m)
+    (h : s.addModule m path = .ok s') : StateOkB s' :=
+  ⟨addModule_ok' s s' m path hs.ok hm.xtypes h, addModule_lits s s' m path hs.lits hm.defs h⟩
+
+/-! ## whole cases -/
+
+/-- the AST modules of a case carry `isize` literals in their alignment-relevant attributes -/
+def CaseBounded (c : Case) : Prop := ∀ path file m, ModEnt.ast path file m ∈ c.modules → ModuleBounded m
+
+theorem initialState_shape (c : Case) (hps : c.ps = 4 ∨ c.ps = 8) (hb : CaseBounded c) :
+    PO NoSite c.initialState ∧ ∀ s, c.initialState = .ok s → StateOkB s := by
+  unfold Case.initialState
+  refine PO.foldlM_inv StateOkB _ c.modules _ (new_okB c.ps hps) ?_
+  intro s me hme hs
+  cases me with
+  | ast path file m => exact ⟨addModule_np s m path, fun s' h => addModule_okB s s' m path hs (hb path file m hme) h⟩
+  | text f t => exact ⟨PO.err _, fun _ h => by cases h⟩
+
+theorem run_shape (c : Case) (hps : c.ps = 4 ∨ c.ps = 8) (hb : CaseBounded c) : BuildGood c.run := by
+  obtain ⟨h1, h2⟩ := initialState_shape c hps hb
+  unfold Case.run
+  split
+  · next s hs => exact build_shape s c.prio (h2 s hs)
+  · trivial
+  · next m hm => exact (h1 m hm).elim
+  · trivial
+/-! ## the counterexamples to the statements without the literal bound
+
+All of them put a literal `2 ^ 64` – not an `isize`, so not something the parser produces – into an
+`#[align(N)]` attribute.  The evaluations are checked by the kernel (`decide +kernel`); `List.mergeSort`
+does not reduce there, so the resolution loop is stepped through by hand. -/
+
+/-- the state of an outcome, `State.new 8` if there is none -/
+def stateOf (r : Res State) : State := match r with | .ok s => s | _ => State.new 8
+
+theorem eq_ok_stateOf (r : Res State) (h : r.isOk = true) : r = .ok (stateOf r) := by
+  cases r <;> first | rfl | cases h
+
+/-- the alignment stored for `p`, if `p` is resolved -/
+def alignAt (s : State) (p : Path) : Option Nat := (s.reg.get p).bind fun i => i.resolved?.map (·.align)
+
+theorem alignAt_le {s : State} (hs : StateOk s) (p : Path) (a : Nat) (h : alignAt s p = some a) : a ≤ 2 ^ 63 := by
+  unfold alignAt at h
+  cases hg : s.reg.get p with
+  | none => simp [hg] at h
+  | some i =>
+    simp only [hg, Option.bind_some] at h
+    cases hst : i.state with
+    | unres d => simp [ItemDef.resolved?, hst] at h
+    | res res =>
+      simp only [ItemDef.resolved?, hst, Option.map_some, Option.some.injEq] at h
+      subst h
+      exact (hs.reg.aligns p i res hg hst).2
+
+/-- `#[size(0), align(18446744073709551616)] extern type X;` -/
+def ceExtern : G.Module := { xtypes := [("X", [.fn "size" [.int 0], .fn "align" [.int (2 ^ 64)]])] }
+
+/-- `#[align(18446744073709551616)] type V {}` -/
+def ceV : G.Item :=
+  { vis := .pub, name := "V", inner := .type { stmts := [], attrs := [.fn "align" [.int (2 ^ 64)]] } }
+
+/-- `#[align(18446744073709551616)] type V {}  type A { v: V }` -/
+def ceModule : G.Module :=
+  { defs := [ceV, { vis := .pub, name := "A",
+                    inner := .type { stmts := [{ field := .field .pub "v" (.ident "V"), attrs := [] }], attrs := [] } }] }
+
+/-- pointer width 8, the one module `ceModule` at the root, no priorities -/
+def ceCase : Case := { id := "ce", ps := 8, prio := [], modules := [.ast [] "ce.pyxis" ceModule], extras := [] }
+
+/-- the state of `ceCase` before the build -/
+def ceState : State := stateOf ((State.new 8).addModule ceModule [])
+/-- … and after the first round, in which `V` was resolved with alignment `2 ^ 64` -/
+def ceState2 : State := (runRound ceState [["A"], ["V"]]).1
+/-- the overflow check of `util::lcm` -/
+def ceSite : String := "util::lcm: acc / gcd * x"
+
+theorem ce_add : (State.new 8).addModule ceModule [] = .ok ceState :=
+  eq_ok_stateOf _ (by decide +kernel)
+
+theorem ce_ok : StateOk ceState :=
+  addModule_ok' _ _ ceModule [] (new_okB 8 (Or.inr rfl)).ok (fun _ hx => by cases hx) ce_add
+
+theorem ce_unres1 : ceState.reg.unresolved [] = [["A"], ["V"]] := by
+  rw [C10.unresolved_eq, (by decide +kernel : C10.ulist ceState.reg = [["A"], ["V"]])]
+  exact List.mergeSort_of_pairwise (by decide +kernel)
+
+theorem ce_round1 : runRound ceState [["A"], ["V"]] = (ceState2, .ok ()) := by
+  have : (runRound ceState [["A"], ["V"]]).2 = .ok () := by decide +kernel
+  rw [← this]; rfl
+
+theorem ce_unres2 : ceState2.reg.unresolved [] = [["A"]] := by
+  rw [C10.unresolved_eq, (by decide +kernel : C10.ulist ceState2.reg = [["A"]])]
+  exact List.mergeSort_singleton _
+
+theorem ce_round2 : runRound ceState2 [["A"]] = ((runRound ceState2 [["A"]]).1, .panic ceSite) := by
+  have : (runRound ceState2 [["A"]]).2 = .panic ceSite := by decide +kernel
+  rw [← this]
+
+theorem ce_loop2 (n : Nat) : resolveLoop [] (n + 1) ceState2 = .panic ceSite := by
+  unfold resolveLoop
+  simp only [ce_unres2]
+  rw [ce_round2]
+  rfl
+
+theorem ce_loop1 (n : Nat) : resolveLoop [] (n + 2) ceState = .panic ceSite := by
+  unfold resolveLoop
+  simp only [ce_unres1, ce_round1, ce_unres2]
+  exact ce_loop2 n
+
+theorem ce_build : ceState.build [] = .panic ceSite := by
+  unfold State.build
+  simp only []
+  rw [(by decide +kernel : (ceState.reg.types.filter fun e => !e.2.isResolved).length = 2)]
+  rw [ce_loop1 4]
+
+theorem ce_run : ceCase.run = .panic ceSite := by
+  have : ceCase.initialState = .ok ceState := by
+    simp only [Case.initialState, ceCase, Res.foldlM, ce_add]
+  unfold Case.run
+  rw [this]
+  exact ce_build
+
+theorem ceSite_ne : ceSite ≠ allocSite := by decide
+
 end PyxisVerif.C12
